@@ -29,7 +29,9 @@ Streams (all end in the same judgement):
                            that fails after moves; extend / update from an iterator that fails after valid items)
   directed:field-classes   EVERY exported Field class: assignment of a rejected value over an accepted one
   directed:container-hook  a __validate__ that reads container sizes: the field stays validated after a hook failure
-  directed:hooks / extfields / nested   the known defects F4, F5, del bypassing the hook
+  directed:hooks / extfields / nested   the known defect F5; F4 (hook / format check after the store) and del bypassing
+                           the hook are REPAIRED in the library (Structure.__setattr__ restores the previous entry,
+                           __delitem__ runs the hook): these streams report them again if they come back
 Known false alarms met while building (and how they were repaired) are recorded in DESIGN.md 12.3; two met in round 3:
 a directed call that stored a slice / generator object as an ELEMENT (not reifiable: such calls are skipped), and a
 Decimal look-alike of 1e300 that does not survive Decimal(...).scaleb under the default context (candidates must
@@ -1340,7 +1342,8 @@ def reconstructible_state(cls, state, ctx):
 
 
 def directed_hooks(ctx, tables):
-    """F4: store before the hook / post-store format checks; del bypassing the hook."""
+    """F4: store before the hook / post-store format checks; del bypassing the hook (both repaired in the library:
+    a rejected assignment / deletion must leave the instance as it was)."""
     out = []
     I = {"t": "num", "k": "Integer", "s": "Any"}
     add_class(ctx, {"name": "WH", "fields": [{"name": "a", "field": {"t": "seqeach", "k": "list", "item": I, "sz": [None, None], "uniq": False}},
@@ -1428,7 +1431,7 @@ class WHC(Structure):
 def directed_container_hook(rep, tables):
     """The class's __validate__ relates the SIZE of a typed container to another field (the model's hook language
     has no such hook, so this stream is judged on the implementation alone).  A growing mutator with a valid item
-    is rejected by the hook (whether the instance changed then is the known hook-after-store defect); whatever
+    is rejected by the hook (the instance must then be unchanged: the hook-after-store defect is repaired); whatever
     happened, the field must still be validated afterwards: an invalid item is rejected and changes nothing."""
     ns = {}
     exec(HOOKC_SRC, ns)
